@@ -321,7 +321,7 @@ def make_commit(n, d, with_blobs):
 
 def obligations(tier):
     obs = []
-    from vf.props.c12 import make_posterior
+    from vf.props.c12 import make_posterior, make_posterior_after_replacement
     if tier == "quick":
         obs += [make_mutate("rwm", 2, 1, True), make_mutate("tpcn", 1, 1, False), make_mutate("tpcn", 1, 1, True, "periodic"),
                 make_mutate("rwm", 1, 1, False, "reflective"),
@@ -329,6 +329,7 @@ def obligations(tier):
                 make_resample("mult", 2, (2, 1), True), make_resample("syst", 2, (2, 1), True),
                 make_commit(2, 1, True)]
         obs += [make_posterior(flags, (2, 1), 3) for flags in [(True, True, True, True), (False, True, False, True), (True, False, True, False), (False, False, True, True)]]
+        obs.append(make_posterior_after_replacement((2, 1)))  # records stay whole when the history is replaced by load_state / resume
     else:
         for kernel in ("tpcn", "rwm"):
             for wb in (True, False):
